@@ -38,10 +38,12 @@ Proof. exact ebcdic_V_ok. Qed.
 Print Assumptions C03c_fixed_ebcdic_V.
 
 (* RECFM VB: the rows grouped into blocks in ANY way (blocks of any number of rows, empty blocks too), every
-   block within the 16-bit block length; at least one column (RECFM_VB cannot hold an empty record: C05). *)
+   block within the 16-bit block length; zero columns included, as for V (since fix eee0fb2 RECFM_VB reads a
+   record without data bytes wherever it stands in its block: Props/C05.v C05_VB; before it this theorem needed
+   at least one column). *)
 Theorem C03c_fixed_ebcdic_VB :
   forall (kind : N) (wb_lrecl : option nat) (T : table) (widths : list nat) (blocks : list (list (list text))),
-  NoDup (t_header T) -> fits widths T = true -> repertoire_ok T = true -> t_header T <> [] ->
+  NoDup (t_header T) -> fits widths T = true -> repertoire_ok T = true ->
   concat blocks = t_rows T -> forallb (block_fits widths) blocks = true ->
   read_ebcdic_v RECFM_VB kind wb_lrecl (write_ebcdic_VB blocks widths) (layout_of (t_header T) widths) (t_header T)
   = expected [([], pad_table widths T)].
@@ -68,7 +70,7 @@ Print Assumptions C03c_recfm_agree.
    representable (record length + 4 <= 65535 for V; the blocks as above for VB). *)
 Theorem C03c_images_are_bytes :
   (forall T widths, fits widths T = true -> record_fits widths = true -> bytes_ok (write_ebcdic_V T widths) = true)
-  /\ (forall T widths blocks, fits widths T = true -> t_header T <> [] -> concat blocks = t_rows T ->
+  /\ (forall T widths blocks, fits widths T = true -> concat blocks = t_rows T ->
         forallb (block_fits widths) blocks = true -> bytes_ok (write_ebcdic_VB blocks widths) = true).
 Proof. split; [exact image_V_bytes|exact image_VB_bytes]. Qed.
 Print Assumptions C03c_images_are_bytes.
@@ -104,10 +106,12 @@ Proof.
   repeat split; try (vm_compute; reflexivity). discriminate.
 Qed.
 
-(* the boundary of the VB theorem: a table without columns has empty records, which RECFM_VB refuses
-   (AssertionError in the walk over the block), while RECFM_V reads it *)
-Example C03c_VB_needs_a_column :
+(* the former boundary of the VB theorem: a table without columns has records without data bytes.  Until fix eee0fb2
+   RECFM_VB refused the last of them in each block (AssertionError in the walk over the block; Props/C05.v
+   C05_VB_empty_last_old_refuted) while RECFM_V read the file; now both read it, in every blocking *)
+Example C03c_VB_no_column :
   let T0 := mk_table [] [[]; []] in
-  read_ebcdic_v RECFM_VB 0 None (write_ebcdic_VB [t_rows T0] []) (layout_of [] []) [] = [([], Err AssertionError)]
+  read_ebcdic_v RECFM_VB 0 None (write_ebcdic_VB [t_rows T0] []) (layout_of [] []) [] = [([], Ok [[]; []])]
+  /\ read_ebcdic_v RECFM_VB 0 None (write_ebcdic_VB [[[]]; []; [[]]] []) (layout_of [] []) [] = [([], Ok [[]; []])]
   /\ read_ebcdic_v RECFM_V 0 None (write_ebcdic_V T0 []) (layout_of [] []) [] = [([], Ok [[]; []])].
-Proof. vm_compute. split; reflexivity. Qed.
+Proof. vm_compute. repeat split; reflexivity. Qed.
